@@ -73,6 +73,9 @@ def mk_cases(cid, nums, conns, kw, rng, origin, lo_shift=True):
                     args.update(prefix=block + " of ", suffix=", T154N-R97W", block=block)
                     if rng.random() < 0.3:
                         args["layout_kw"] = "desc_STR"
+                elif rng.random() < 0.12:
+                    # nothing is described: the list ends the text (every section still gets its tract, with an empty block)
+                    args.update(prefix="T154N-R97W ", suffix=rng.choice(["", ":", "\n"]), block="")
                 else:
                     args.update(prefix="T154N-R97W " if rng.random() < 0.7 else "Township 154 North, Range 97 West, ",
                                 suffix=": " + block, block=block)
@@ -184,7 +187,7 @@ def run(ctx):
             conns.append("AND")
         rnd2 = mk_cases("L%d" % n, nums_, conns, [False] * len(nums_), ctx.rng, "long range", lo_shift=False)
         for c in rnd2:
-            if c["args"]["flavour"] == "plss" and ctx.rng.random() < 0.6:
+            if c["args"]["flavour"] == "plss" and c["args"].get("block") and ctx.rng.random() < 0.6:
                 # also in the layouts whose documented rendering has no colon
                 c["args"].update(prefix="", suffix=", T154N-R97W", block=c["args"]["block"])
                 c["args"]["text"] = c["args"]["block"] + " of " + c["args"]["text"]
